@@ -21,6 +21,26 @@ use std::collections::BTreeMap;
 pub fn feq(a: f32, b: f32) -> bool {
     (a.is_nan() && b.is_nan()) || a == b
 }
+/// identity of a float as a stored value: NaN is NaN, and the sign of a zero counts (a snapshot
+/// is compared with this; `feq` is the numeric equality used for matching code items)
+pub fn fsame(a: f32, b: f32) -> bool {
+    (a.is_nan() && b.is_nan()) || a.to_bits() == b.to_bits()
+}
+pub fn fvec_same(a: &[f32], b: &[f32]) -> bool {
+    a.len() == b.len() && a.iter().zip(b).all(|(x, y)| fsame(*x, *y))
+}
+/// identity of code items (strict on floats), as opposed to `==` (numeric on floats)
+pub fn item_same(a: &ItemSpec, b: &ItemSpec) -> bool {
+    match (a, b) {
+        (ItemSpec::List(x), ItemSpec::List(y)) => items_same(x, y),
+        (ItemSpec::Float(x), ItemSpec::Float(y)) => fsame(*x, *y),
+        (ItemSpec::FVec(x), ItemSpec::FVec(y)) => fvec_same(x, y),
+        _ => a == b,
+    }
+}
+pub fn items_same(a: &[ItemSpec], b: &[ItemSpec]) -> bool {
+    a.len() == b.len() && a.iter().zip(b).all(|(x, y)| item_same(x, y))
+}
 pub fn fvec_eq(a: &[f32], b: &[f32]) -> bool {
     a.len() == b.len() && a.iter().zip(b).all(|(x, y)| feq(*x, *y))
 }
@@ -520,21 +540,21 @@ impl StateSpec {
         match c {
             "BOOLEAN" => self.bools == o.bools,
             "INTEGER" => self.ints == o.ints,
-            "FLOAT" => fvec_eq(&self.floats, &o.floats),
+            "FLOAT" => fvec_same(&self.floats, &o.floats),
             "NAME" => self.names == o.names,
-            "CODE" => self.code == o.code,
-            "EXEC" => self.exec == o.exec,
+            "CODE" => items_same(&self.code, &o.code),
+            "EXEC" => items_same(&self.exec, &o.exec),
             "BOOLVECTOR" => self.bvecs == o.bvecs,
             "INTVECTOR" => self.ivecs == o.ivecs,
             "FLOATVECTOR" => {
                 self.fvecs.len() == o.fvecs.len()
-                    && self.fvecs.iter().zip(&o.fvecs).all(|(a, b)| fvec_eq(a, b))
+                    && self.fvecs.iter().zip(&o.fvecs).all(|(a, b)| fvec_same(a, b))
             }
             "INDEX" => self.index == o.index,
             "INPUT" => self.input == o.input,
             "OUTPUT" => self.output == o.output,
             "GRAPH" => self.graphs == o.graphs,
-            "BINDINGS" => self.bindings == o.bindings,
+            "BINDINGS" => self.bindings.len() == o.bindings.len() && self.bindings.iter().zip(o.bindings.iter()).all(|((k1, v1), (k2, v2))| k1 == k2 && item_same(v1, v2)),
             "QUOTE" => self.quote_name == o.quote_name,
             "SEND" => self.send_name == o.send_name,
             "CONFIG" => self.config == o.config,
